@@ -1232,8 +1232,12 @@ def inverse_field_ref(vals, rch, rdist, rpow, rang, rk, rres):
     ch, d, p, A, k, r = vals[rch], vals[rdist], vals[rpow], _A(vals[rang]), vals[rk], vals[rres]
     if _isP(r): return 'unexpected panic'
     want = v(k[1]) * v(ch[1]) / mp.power(v(d[1]), v(p[1]))
-    if not (mp.mpf('1e-300') < want < mp.mpf('1e300')): return None
-    if not fb.is_finite_bits(r[1]) or not _rel_close(v(r[1]), want, 256): return 'field magnitude %s, expected k q / r^n = %s' % (mp.nstr(v(r[1]), 17), mp.nstr(want, 17))
+    if want == 0 and v(d[1]) > 0:
+        # a zero charge: zero field, and the direction still follows the sign carried by the charge's angle
+        if not fb.is_finite_bits(r[1]) or v(r[1]) != 0: return 'field of a zero charge has magnitude %s' % mp.nstr(v(r[1]), 17)
+    else:
+        if not (mp.mpf('1e-300') < want < mp.mpf('1e300')): return None
+        if not fb.is_finite_bits(r[1]) or not _rel_close(v(r[1]), want, 256): return 'field magnitude %s, expected k q / r^n = %s' % (mp.nstr(v(r[1]), 17), mp.nstr(want, 17))
     c = mp.cos(direction(_A(ch)))
     R = _A(r)
     same = (R[1], R[2]) == (A[1], A[2])
